@@ -170,6 +170,26 @@ CHECKS = {
              "checkpoint written by the checkpointing logger).",
         ref="DESIGN.md §5 C19",
     ),
+    "C06": dict(
+        technique="runtime monitoring: per-leaf float64 law oracle on the real "
+                  "update functions; storage-identity probes on targets created "
+                  "by train_*; in-loop snapshot-pair checker (every target change "
+                  "between consecutive parameter snapshots must satisfy the law "
+                  "w.r.t. the online snapshot) plus cadence oracle",
+        text="Exploration over architectures x tau, and real training runs of the "
+             "nine routines that maintain targets with varied delays.",
+        ref="DESIGN.md §5 C06",
+    ),
+    "C10": dict(
+        technique="runtime monitoring: bounds / clip / standardised-noise oracles "
+                  "on the real action samplers and tanh policies with hostile "
+                  "boxes and network outputs; in-loop check of every action the "
+                  "recording environment receives and of CEM candidates exported "
+                  "from the rebound planner sampler",
+        text="Exploration over boxes (asymmetric, tiny, huge), noise / clip "
+             "settings, keys, and real DDPG/TD3/TD3+LAP/TD7/MR.Q/PETS runs.",
+        ref="DESIGN.md §5 C10",
+    ),
 }
 
 NOT_YET = {}
